@@ -319,7 +319,7 @@ C03_CONFIGS = [("zip", "path"), ("zip", "bytesio"), ("folder", "path")]
 
 # edits applied to the reopened document just before the second, in-place save (the target already exists and
 # holds the parts of the first save: nothing of it may survive that the document no longer has)
-C03_LATE_HISTORIES = ["del_part@2", "add_file@2"]
+C03_LATE_HISTORIES = ["del_part@2", "add_file@2", "setpart_fresh@2"]
 
 
 def _c03_gen(con, sigcase, count, seed):
@@ -574,7 +574,7 @@ C04_HISTORIES = [
     "add_two_different", "add_then_del", "del_existing", "image_frame", "image_frame_twice", "merge_styles",
     "merge_styles_twice", "clone", "add_then_clone", "save_reopen_add", "add_save_reopen_add_same", "add_save_save",
     "del_save_reopen_save", "clone_add_save_original", "add_clone_del_save_clone", "clone_del_save_original",
-    "add_del_add_same",
+    "add_del_add_same", "del_clone_save_both",
 ]
 C04_MERGE_FROM = "background.odp"     # has a draw:fill-image in styles.xml, so merge copies a picture + manifest entry
 
@@ -758,6 +758,12 @@ def _c04_call(con, fn, argvals, labels):
                     res.in_domain = False
                     return res
                 twin = doc.clone; twin.del_part(part); save(doc, "clone.del_part; save original"); save(twin, "the clone")
+            elif hist == "del_clone_save_both":
+                part = existing_part()
+                if part is None:
+                    res.in_domain = False
+                    return res
+                doc.del_part(part); twin = doc.clone; save(twin, "del_part; clone; save clone"); save(doc, "the original")
             elif hist == "add_del_add_same":
                 uri = doc.add_file(png); doc.del_part(uri); doc.add_file(png); save(doc, "add_file; del_part; add_file(same)")
             elif hist == "save_reopen_add":
@@ -795,7 +801,7 @@ contract(
     gen=_c04_gen, call_native=_c04_call,
     bounded=dict(
         scope="sources {4 built-in templates} + {8 named samples (quick) / all 37 ODF zips of tests/samples (thorough)}, every "
-              "source itself checked coherent first, x 24 histories over {new from template, open sample, add_file(path) "
+              "source itself checked coherent first, x 25 histories over {new from template, open sample, add_file(path) "
               "once / twice / same content under two file names, add_file(BytesIO) once / twice / after path, two different "
               "files, add then del_part, del_part of an existing part, image frame (same image once / twice), "
               "merge_styles_from(background.odp) once / twice, clone, add_file then clone, save-reopen-add, "
